@@ -172,6 +172,7 @@ def small_alphabet(U):
         ('forkfail', U, [], [3], []),
         ('pipefail', U, [], [1], []),
         ('eperm', 0, [['rpc', 0, 'stop', 0, 0]], [], [2]),
+        ('stopweperm', U, [['rpc', 0, 'stop', 0, 1], ['poll']], [], [2]),
     ]
 
 
